@@ -78,6 +78,7 @@ let rec stmt (x : sx) : stmt =
   | L [A "formula"; A k; n; L (A "scope" :: sc); p; L (A "args" :: args)] ->
     SFormula (k = "fact", id n, List.map id sc, id p,
               List.map (function L [f; e] -> (id f, expr e) | _ -> failwith "sexp: bad formula arg") args)
+  | L [A "assign"; L (A "path" :: p); x; A fr; e] -> SAssign (List.map id p, id x, (fr = "fresh"), expr e)
   | _ -> failwith "sexp: bad statement"
 
 let param = function L [x; t] -> (id x, ty t) | _ -> failwith "sexp: bad parameter"
